@@ -1,5 +1,106 @@
 import Driver.Proto
-/-! C13 handler (not implemented yet). -/
+import ThunderModel.Sql.Codec
+/-! C13 handler. Wire forms: kind `"bool" | "float" | "str" | "bytes" | "time" | "enc" | {"int":[bits,signed]}`;
+FV `null | {"b":bool} | {"i":[bits,signed,value]} | {"f":t} | {"s":t} | {"y":t} | {"t":t} | {"e":t}`;
+DV `null | {"int":v} | {"float":t} | {"bool":b} | {"bytes":t} | {"str":t} | {"time":t}`. -/
+open Lean TM.Codec
+
 namespace Driver.C13
-def handle : Handler := fun _ => throw "C13: no model yet"
+
+def decWidth (n : Nat) : Except String Width :=
+  match n with
+  | 8 => pure .w8 | 16 => pure .w16 | 32 => pure .w32 | 64 => pure .w64
+  | _ => throw "bad width"
+
+def decIKind (a : Array Json) : Except String IKind := do
+  let w ← decWidth (← (a[0]?.getD Json.null).getNat?)
+  let s ← (a[1]?.getD Json.null).getBool?
+  pure ⟨w, s⟩
+
+def decKind (j : Json) : Except String Kind :=
+  match j with
+  | .str "bool" => pure .bool | .str "float" => pure .float | .str "str" => pure .str
+  | .str "bytes" => pure .bytes | .str "time" => pure .time | .str "enc" => pure .enc
+  | _ => do
+    let a ← (← j.getObjVal? "int").getArr?
+    pure (.int (← decIKind a))
+
+def decDesc (j : Json) : Except String Desc := do
+  pure { kind := ← decKind (← field j "kind"), ptr := ← bool j "ptr", implicitNull := ← bool j "inull" }
+
+def decFV (j : Json) : Except String FV :=
+  match j with
+  | .null => pure .nil
+  | _ => do
+    if let .ok v := j.getObjVal? "b" then return .val (.b (← v.getBool?))
+    if let .ok v := j.getObjVal? "f" then return .val (.f (← v.getInt?))
+    if let .ok v := j.getObjVal? "s" then return .val (.s (← v.getInt?))
+    if let .ok v := j.getObjVal? "y" then return .val (.by (← v.getInt?))
+    if let .ok v := j.getObjVal? "t" then return .val (.tm (← v.getInt?))
+    if let .ok v := j.getObjVal? "e" then return .val (.e (← v.getInt?))
+    let a ← (← j.getObjVal? "i").getArr?
+    let k ← decIKind a
+    let v ← (a[2]?.getD Json.null).getInt?
+    pure (.val (.i k v))
+
+def widthBits : Width → Nat | .w8 => 8 | .w16 => 16 | .w32 => 32 | .w64 => 64
+
+def encFV : FV → Json
+  | .nil => .null
+  | .val (.b v) => Json.mkObj [("b", v)]
+  | .val (.i k v) => Json.mkObj [("i", Json.arr #[(widthBits k.width : Json), k.signed, (v : Json)])]
+  | .val (.f t) => Json.mkObj [("f", (t : Json))]
+  | .val (.s t) => Json.mkObj [("s", (t : Json))]
+  | .val (.by t) => Json.mkObj [("y", (t : Json))]
+  | .val (.tm t) => Json.mkObj [("t", (t : Json))]
+  | .val (.e t) => Json.mkObj [("e", (t : Json))]
+
+def encDV : DV → Json
+  | .null => .null
+  | .int v => Json.mkObj [("int", (v : Json))]
+  | .float t => Json.mkObj [("float", (t : Json))]
+  | .bool b => Json.mkObj [("bool", b)]
+  | .bytes t => Json.mkObj [("bytes", (t : Json))]
+  | .str t => Json.mkObj [("str", (t : Json))]
+  | .time t => Json.mkObj [("time", (t : Json))]
+
+def decRep (s : String) : Except String Rep :=
+  match s with
+  | "driver" => pure .driver | "text" => pure .text | "binlog" => pure .binlog
+  | _ => throw "bad rep"
+
+def encErr : Err → String | .coerce => "coerce" | .parse => "parse" | .nilNonPtr => "nilNonPtr"
+
+def jRes (r : Except Err (List FV)) : Json :=
+  match r with
+  | .ok l => Json.mkObj [("ok", jList encFV l)]
+  | .error e => Json.mkObj [("err", encErr e)]
+
+def handle : Handler := fun req => do
+  let op ← str req "op"
+  match op with
+  | "row" =>
+    let ds ← listOf decDesc (← field req "descs")
+    let vs ← listOf decFV (← field req "vals")
+    let dvs := unbuild ds vs
+    pure <| Json.mkObj [
+      ("dvs", jList encDV dvs),
+      ("driver", jRes (build .driver ds dvs)), ("text", jRes (build .text ds dvs)), ("binlog", jRes (build .binlog ds dvs)),
+      ("short", jRes (build .driver ds (dvs.drop 1))),
+      ("testSelf", test ds vs vs)]
+  | "test" =>
+    let ds ← listOf decDesc (← field req "descs")
+    let f ← listOf decFV (← field req "filter")
+    let row ← listOf decFV (← field req "row")
+    pure <| Json.mkObj [("match", test ds f row)]
+  | "proto" =>
+    let d ← decDesc (← field req "desc")
+    let x ← decFV (← field req "x")
+    let r := viaProto d x
+    pure <| Json.mkObj [
+      ("res", match r with | .ok y => Json.mkObj [("ok", encFV y)] | .error e => Json.mkObj [("err", encErr e)]),
+      ("dv", encDV (value d x)),
+      ("dvAfter", match r with | .ok y => encDV (value d y) | .error _ => Json.null)]
+  | _ => throw s!"C13: unknown op {op}"
+
 end Driver.C13
